@@ -52,6 +52,13 @@ CHECKS = {
         "(hook VerifOptions, incl. derived lenAttrPrefix/trimRunes/special keys) must equal the specification state after EVERY call; at the end of each history every operation class "
         "must be unaffected by resetting the registers the specification declares irrelevant for it, and after the explicit restore sequence all probes must equal a fresh process.",
    ref="DESIGN.md section 4, C18", technique="TLA+ register state machine, complete state space in TLC, history replay with state comparison after every call"),
+ "C01": dict(
+   text="TLA+ specification MxjXml of abstract XML documents and of the documented XML->Map conventions (Decode) written from the documentation, with character-level trimming, case folding, "
+        "snake-casing and escaping; TLC enumerates documents by builder actions in factorised families (names incl. namespace prefixes and folding collisions; ordered attributes; text placement, "
+        "blank runs, comments) and evaluates Decode under EVERY option combination of the domain (2^7 switches x 3 attribute prefixes x 2 key prefixes), checking one-root, accounting "
+        "(every attribute/text/empty element appears exactly once) and that tag sequence numbers only add entries; every (document, option combination, expected Map) is replayed on the real "
+        "decoders through the public setters, each document rendered in one of three concrete syntaxes (quotes, empty-element form, CDATA / numeric references, XML declaration, BOM, leading comment).",
+   ref="DESIGN.md section 4, C01", technique="TLA+ transcription of the decode conventions, TLC enumeration of documents x all option combinations, spec->code replay"),
 }
 NOT_YET = "machinery for this property is not built yet in this round (design in DESIGN.md section 4); no claim is made"
 
